@@ -18,8 +18,11 @@ RULE = ('columns of <= 10 numbers/texts (no blanks), tables <= 10x4; every '
         'another operator / the key occurs more than once or not at all; '
         'distinct by (function, operator, operand class, position class)')
 ASSUMPTIONS = [
-    'not generated (statement silent): blanks, booleans, numeric-looking '
-    'text and wildcards (* ? ~) in data or criteria; approximate MATCH only '
+    'not generated (statement silent): booleans, numeric-looking '
+    'text and wildcards (* ? ~) in data or criteria; empty cells only in '
+    'layouts whose verdict does not depend on what an empty cell satisfies '
+    '(same count wherever the empty cells sit; conjunctions decided by the '
+    'other column); approximate MATCH only '
     'on ascending numbers; VLOOKUP only with exact match',
     'SUMIF/SUMIFS are monitored only when the installed pandas can run them '
     '(DataFrame.applymap); otherwise reported as not supported, as the '
@@ -31,7 +34,9 @@ FLOORS = {'countif_cases': 1000, 'countifs_cases': 200, 'match_cases': 500,
           'countifs_rectangles': 100, 'choose_with_ranges': 100,
           'criteria_vs_operator_cases': 50,
           'approximate_text_matches': 100,
-          'lookup_history_cases': 300, 'empty_operand_criteria': 150}
+          'lookup_history_cases': 300, 'empty_operand_criteria': 150,
+          'empty_cells_in_range_cases': 300,
+          'float_lookalike_operand_cases': 50}
 ANCHOR_FUNCS = {
     'xlcalculator/xlfunctions/lookup.py': ['MATCH', 'VLOOKUP', 'CHOOSE'],
     'xlcalculator/xlfunctions/statistics.py': ['COUNTIF', 'COUNTIFS'],
@@ -453,6 +458,111 @@ def run(ctx):
             ctx.event('choose_with_ranges')
         B.maybe_flush()
     B.flush()
+    # ---- empty cells inside a range (the statement does not say whether an
+    # empty cell satisfies "<>7"; it does say "position by position"): where
+    # the empty cells sit - at the end, in the middle, at the start - changes
+    # neither a count nor which positions belong together -------------------
+    if ctx.shard in (2, 3, 4) or thorough:
+        for round_ in range(30 if thorough else 6):
+            vals = [rng.choice([7, 7, 3, 'x', 'apple', 12]) for _ in range(3)]
+            tags = [rng.choice(['x', 'y']) for _ in range(3)]
+            layouts = {'end': vals + [None, None], 'middle': [vals[0], None,
+                                                              None] + vals[1:],
+                       'start': [None, None] + vals}
+            tag_l = {'end': tags + ['y', 'y'],
+                     'middle': [tags[0], 'y', 'y'] + tags[1:],
+                     'start': ['y', 'y'] + tags}
+            want_pairs = sum(1 for v, t in zip(vals, tags)
+                             if crit_holds(v, '<>', 7) and t == 'x')
+            seen = {}
+            for lname in ('end', 'middle', 'start'):
+                cells = {}
+                for i, (v, t) in enumerate(zip(layouts[lname], tag_l[lname]),
+                                           start=1):
+                    if v is not None:
+                        cells[f'A{i}'] = v
+                    cells[f'B{i}'] = t
+                forms = ['=COUNTIF(A1:A5,"<>7")', '=COUNTIF(A1:A5,"")',
+                         '=COUNTIF(A1:A5,"<>x")', '=COUNTIF(A1:A5,7)',
+                         '=COUNTIFS(A1:A5,"<>7",B1:B5,"x")',
+                         '=COUNTIFS(B1:B5,"x",A1:A5,"<>7")',
+                         '=COUNTIFS(A1:A5,7,B1:B5,"y")']
+                outs = subject.eval_batch(forms, cells)
+                for f_, got in zip(forms, outs):
+                    ctx.event('empty_cells_in_range_cases')
+                    ctx.case(('empty-cells', lname, f_))
+                    first = seen.setdefault(f_, (lname, got))
+                    if got != first[1]:
+                        ctx.fail(f'{f_} over {layouts[lname]} / '
+                                 f'{tag_l[lname]} (empty cells at the '
+                                 f'{lname}) -> {got}; with the empty cells at '
+                                 f'the {first[0]} -> {first[1]}',
+                                 {'formula': f_, 'A': layouts[lname],
+                                  'B': tag_l[lname], 'observed': got,
+                                  'other_layout': first},
+                                 monitor='linear-scan',
+                                 group='empty-cells:position')
+                    if 'COUNTIFS(A1:A5,"<>7"' in f_ or \
+                            'COUNTIFS(B1:B5,"x",A1' in f_:
+                        if got != ('value', ('num', float(want_pairs))):
+                            ctx.fail(f'{f_} over A={layouts[lname]}, '
+                                     f'B={tag_l[lname]} -> {got}, position by '
+                                     f'position {want_pairs} rows hold both '
+                                     f'(the rows with an empty A carry "y")',
+                                     {'formula': f_, 'A': layouts[lname],
+                                      'B': tag_l[lname], 'observed': got,
+                                      'reference': want_pairs},
+                                     monitor='linear-scan',
+                                     group='empty-cells:pairs')
+            # lookups: keys in the filled part are found where they are
+            col = [rng.choice(WORDS[:6]) for _ in range(3)]
+            cells = {f'D{i + 1}': v for i, v in enumerate(col)}
+            cells.update({f'E{i + 1}': 10 * (i + 1) for i in range(3)})
+            key = rng.choice(col)
+            pos = col.index(key) + 1
+            forms = {f'=MATCH({subject.lit(key)},D1:D6,0)': ('num', float(pos)),
+                     f'=VLOOKUP({subject.lit(key)},D1:E6,2,FALSE)':
+                         ('num', float(10 * pos)),
+                     '=MATCH("zebra",D1:D6,0)': ('err', '#N/A'),
+                     f'=COUNTIF(D1:D6,{subject.lit(key)})':
+                         ('num', float(col.count(key)))}
+            outs = subject.eval_batch(list(forms), cells)
+            for (f_, want), got in zip(forms.items(), outs):
+                ctx.event('empty_cells_in_range_cases')
+                if got != ('value', want):
+                    ctx.fail(f'{f_} over {col} followed by three empty cells '
+                             f'-> {got}, scan gives {want}',
+                             {'formula': f_, 'data': col, 'observed': got,
+                              'reference': want}, monitor='linear-scan',
+                             group='empty-cells:lookup')
+    # ---- texts that Python's float() would read as not-a-number or infinite are
+    # texts: as criterion operands and as cells -----------------------------
+    if ctx.shard in (5, 6) or thorough:
+        odd = ['inf', 'nan', 'Infinity', '-inf', '1e999', 'NaN', '-1E+400']
+        colx = odd[:4] + ['apple', 3, 0, 'INF']
+        rgx = 'A1:A8'
+        cellsx = {f'A{i + 1}': v for i, v in enumerate(colx)}
+        formsx = {}
+        for t in odd:
+            for op in ('', '=', '<>'):
+                n_ = sum(1 for c in colx if crit_holds(c, op, t))
+                formsx[f'=COUNTIF({rgx},{subject.lit(op + t)})'] = \
+                    ('num', float(n_))
+            formsx[f'=COUNTIFS({rgx},{subject.lit("<>" + t)},{rgx},"<>apple")'] \
+                = ('num', float(sum(1 for c in colx if crit_holds(c, '<>', t)
+                                    and crit_holds(c, '<>', 'apple'))))
+            formsx[f'=MATCH({subject.lit(t)},{rgx},0)'] = next(
+                (('num', float(i + 1)) for i, c in enumerate(colx)
+                 if values_equal(c, t)), ('err', '#N/A'))
+        outs = subject.eval_batch(list(formsx), cellsx)
+        for (f_, want), got in zip(formsx.items(), outs):
+            ctx.event('float_lookalike_operand_cases')
+            ctx.case(('float-lookalike', f_))
+            if got != ('value', want):
+                ctx.fail(f'{f_} over {colx} -> {got}, scan gives {want}',
+                         {'formula': f_, 'data': colx, 'observed': got,
+                          'reference': want}, monitor='linear-scan',
+                         group='float-lookalike:' + f_[1:8])
     # ---- histories: tables that share their key column, payloads re-assigned -----
     # (an answer must come from the table the formula names as it is NOW: same
     # keys with other payloads or another width, side by side in one workbook,
